@@ -93,6 +93,59 @@ def applicable(G, st):
     return True
 
 
+def run_parent_styles(rec, styles):
+    """The spelling of a *parent* grammar does not matter to the grammars that extend it: a named
+    single-expression parent (bare expression or `start = expr`, in every layout) with a child that
+    adds a rule, a child that refers to the inherited start rule by name, and a grandchild."""
+    import sys
+    parent_rule = ('alt', [('str', 'a'), ('right', ('str', '('), ('left', ('ref', 'start'), ('str', ')')))])
+    texts = ['a', '(a)', '((a))', 'b', '(a', 'a,a', '', 'a,(a)', '12', 'a;']
+    for sname, st in styles:
+        uid = diff.unique_name('vt_c19p')
+        names = [uid + '_p', uid + '_extra', uid + '_refer', uid + '_grand']
+        GP = dict(name=names[0], extends=None, stmts=[('rule', 'start', None, parent_rule)])
+        kids = [dict(name=names[1], extends=names[0], stmts=[('rule', 'Word', None, ('re', '[a-z]+', False))]),
+                dict(name=names[2], extends=names[0], stmts=[('rule', 'Items', None, ('sep', ('ref', 'start'), ('str', ','), {'_op': '//'})),
+                                                              ('rule', 'Tail', None, ('left', ('ref', 'start'), ('str', ';')))]),
+                dict(name=names[3], extends=names[1], stmts=[('rule', 'Number', None, ('re', '[0-9]+', False))])]
+        if not applicable(GP, st):
+            continue
+        try:
+            descs = [gast.render_grammar(GP, st)] + [gast.render_grammar(k) for k in kids]
+            mods = []
+            for d in descs:
+                r = observe.compile_grammar(d)
+                rec.case()
+                if r[0] != 'ok':
+                    rec.violation('parent-style-grammar-error:%s:%s' % (sname, r[1] if r[0] != 'timeout' else 'nonterm'), 'Grammar() of a grammar extending a spelling variant',
+                                  dict(kind='parent-style', style=sname, descs=descs), 'module', r)
+                    mods = None
+                    break
+                mods.append(r[1])
+            if mods is None:
+                continue
+            rec.count('parent_style_chains')
+            chains = [refpeg.build_chain([GP]), refpeg.build_chain([GP, kids[0]]), refpeg.build_chain([GP, kids[1]]), refpeg.build_chain([GP, kids[0], kids[2]])]
+            for g, chain, entries in zip(mods, chains, [(None,), (None, 'Word'), (None, 'Items', 'Tail'), (None, 'Number')]):
+                for text in texts:
+                    for entry in entries:
+                        try:
+                            exp, model = refpeg.expected(chain, text, entry, 0, True)
+                        except (refpeg.IllFormed, refpeg.ModelBudget, RecursionError):
+                            rec.drop()
+                            continue
+                        o = observe.observe(g, text, entry)
+                        rec.case()
+                        rec.nontrivial(('parent-style', sname, len(chain), entry, text))
+                        if not observe.same_outcome(exp, o.outcome):
+                            rec.violation('parent-style:%s->%s' % (observe.outcome_class(exp), observe.outcome_class(o.outcome)),
+                                          'grammar extending a spelling variant vs reference model (extends chain)',
+                                          dict(kind='parent-style', style=sname, descs=descs, entry=entry, text_repr=repr(text)), exp, o.outcome)
+        finally:
+            for n in names:
+                sys.modules.pop(n, None)
+
+
 def run_ast(rec, G, inputs, tag, styles, entries=(None,)):
     if not gen.well_formed(G):
         rec.drop()
@@ -287,6 +340,9 @@ def run_shard(rec):
         if not rec.mine(idx):
             continue
         run_ast(rec, dict(name=None, extends=None, stmts=stmts), mix_inputs, ('statement-mix', mtag, len(stmts)), styles)
+    idx += 1
+    if rec.mine(idx):
+        run_parent_styles(rec, styles)
     # bounds whose literals differ in digit count (text vs number comparison of the bounds)
     wide_inputs = ['a' * k + t for k in range(0, 14) for t in ('', 'b')]
     for m, n in [(2, 10), (9, 12), (10, 11), (0, 10), (10, None), (None, 10), (12, 12), (1, 100), (9, 10), (3, 3)]:
@@ -316,6 +372,8 @@ def run_shard(rec):
 def replay(rec, rep):
     import ast
     case = rep['case']
+    if case.get('kind') == 'parent-style':
+        return run_parent_styles(rec, [x for x in style_catalogue() if x[0] == case.get('style')])
     G = ast.literal_eval(case['grammars_repr'])[0]
     text = ast.literal_eval(case['text_repr']) if case.get('text_repr') else ''
     run_ast(rec, G, [text], 'replay', style_catalogue(), entries=(case.get('entry'),))
